@@ -945,6 +945,20 @@ func (e *env) call(n *ast.CallExpr, hint types.Type) Val {
 			e.fail("implements: unknown type")
 		}
 		return boolVal(and(not(eq(a.S[0], "0")), e.st.implTerm(a.S[0], t)))
+	case "arg":
+		// arg(paramName): the operand passed for that parameter at the call a site clause is attached to
+		if id, ok := n.Args[0].(*ast.Ident); ok && e.st != nil && e.st.callArgs != nil {
+			if v, ok := e.st.callArgs[id.Name]; ok {
+				return v
+			}
+		}
+		e.fail("arg(...): no such parameter at this call site")
+	case "result":
+		// result(): the value returned by the call an `after call` clause is attached to
+		if e.st != nil && e.st.callResult != nil && len(n.Args) == 0 {
+			return *e.st.callResult
+		}
+		e.fail("result(): only in `after call` clauses of calls that return one value")
 	case "unbox":
 		// unbox(ifaceValue, T)
 		a := e.ev(n.Args[0], nil)
